@@ -190,6 +190,21 @@ func kindOfType(ty types.Type) (tkind, bool) {
 	if isErrorType(ty) {
 		return tkind{k: "err"}, true
 	}
+	if p, ok := types.Unalias(ty).(*types.Pointer); ok {
+		// *T for a struct T of the repository is read as the value it points to (assignment
+		// through it is refused, a comparison with nil too)
+		if n := namedOf(p); n != nil {
+			if _, isStruct := n.Underlying().(*types.Struct); isStruct && !isTimeTime(n) && inRepo(n.Obj().Pkg()) {
+				return kindOfType(p.Elem())
+			}
+		}
+		return tkind{}, false
+	}
+	if _, ok := types.Unalias(ty).(*types.TypeParam); ok {
+		// a value of a type parameter (V any): the code can only copy, zero and return it, so by
+		// parametricity one instance stands for all — a number, whose zero value is 0
+		return tkind{k: "N", w: 64}, true
+	}
 	if n, ok := ty.(*types.Named); ok {
 		if isTimeTime(n) {
 			// time.Time as an instant in ns on an ideal Z line; the zero Time is 0 and
@@ -197,6 +212,9 @@ func kindOfType(ty types.Type) (tkind, bool) {
 			return tkind{k: "Z", w: 64}, true
 		}
 		if _, ok := n.Underlying().(*types.Struct); ok {
+			if !inRepo(n.Obj().Pkg()) {
+				return tkind{}, false // sync.Mutex, atomic.Int64, netip.Addr, ...: outside the subset
+			}
 			return tkind{k: "struct", name: structTag(n)}, true
 		}
 	}
@@ -316,9 +334,21 @@ func (t *ftr) zeroK(k tkind, ty types.Type, at ast.Node) string {
 	t.ensureStruct(namedOf(ty), at)
 	var parts []string
 	for i := 0; i < st.NumFields(); i++ {
+		if !fieldOK(st, i) {
+			continue
+		}
 		parts = append(parts, t.zero(st.Field(i).Type(), at))
 	}
 	return "(mk_T_" + k.name + " " + strings.Join(parts, " ") + ")"
+}
+
+// fieldOK: the field is part of the emitted Record (its type is inside the subset).
+func fieldOK(st *types.Struct, i int) bool {
+	if st.Field(i).Name() == "_" {
+		return false
+	}
+	_, ok := kindOfType(st.Field(i).Type())
+	return ok
 }
 
 func (t *ftr) zero(ty types.Type, at ast.Node) string {
@@ -339,8 +369,9 @@ func (t *ftr) ensureStruct(n *types.Named, at ast.Node) {
 	var fs []string
 	for i := 0; i < st.NumFields(); i++ {
 		fk, ok := kindOfType(st.Field(i).Type())
-		if !ok {
-			t.bad(at, "struct %s field %s has unsupported type", n.Obj().Name(), st.Field(i).Name())
+		if !ok || st.Field(i).Name() == "_" {
+			// left out of the Record: a function that mentions the field is refused where it does
+			continue
 		}
 		t.ensureKind(fk, st.Field(i).Type(), at)
 		fs = append(fs, fmt.Sprintf("T_%s_%s : %s", structTag(n), st.Field(i).Name(), fk.coq()))
@@ -760,7 +791,9 @@ func (t *ftr) composite(e *ast.CompositeLit) string {
 	t.ensureStruct(n, e)
 	vals := make([]string, st.NumFields())
 	for i := range vals {
-		vals[i] = t.zero(st.Field(i).Type(), e)
+		if fieldOK(st, i) {
+			vals[i] = t.zero(st.Field(i).Type(), e)
+		}
 	}
 	for i, el := range e.Elts {
 		if kv, ok := el.(*ast.KeyValueExpr); ok {
@@ -768,7 +801,10 @@ func (t *ftr) composite(e *ast.CompositeLit) string {
 			found := false
 			for j := 0; j < st.NumFields(); j++ {
 				if st.Field(j).Name() == name {
-					fk, _ := kindOfType(st.Field(j).Type())
+					fk, ok := kindOfType(st.Field(j).Type())
+					if !ok {
+						t.bad(e, "field %s has a type outside the subset", name)
+					}
 					vals[j] = t.exprAs(kv.Value, fk)
 					found = true
 				}
@@ -777,11 +813,20 @@ func (t *ftr) composite(e *ast.CompositeLit) string {
 				t.bad(e, "unknown field %s", name)
 			}
 		} else {
-			fk, _ := kindOfType(st.Field(i).Type())
+			fk, ok := kindOfType(st.Field(i).Type())
+			if !ok {
+				t.bad(e, "field %s has a type outside the subset", st.Field(i).Name())
+			}
 			vals[i] = t.exprAs(el, fk)
 		}
 	}
-	return "(mk_T_" + structTag(n) + " " + strings.Join(vals, " ") + ")"
+	var kept []string
+	for i, v := range vals {
+		if fieldOK(st, i) {
+			kept = append(kept, v)
+		}
+	}
+	return "(mk_T_" + structTag(n) + " " + strings.Join(kept, " ") + ")"
 }
 
 func (t *ftr) binary(e *ast.BinaryExpr) string {
@@ -1298,6 +1343,9 @@ func (t *ftr) lvalUpdate(lhs ast.Expr, val string) string {
 				var parts []string
 				found := false
 				for i := 0; i < st.NumFields(); i++ {
+					if !fieldOK(st, i) {
+						continue
+					}
 					if st.Field(i).Name() == l.Sel.Name {
 						parts = append(parts, val)
 						found = true
@@ -2234,15 +2282,23 @@ func doLoopFunc(it Item) {
 		params = append(params, "("+n+" : "+k.coq()+")")
 		t.push(n, k.coq())
 	}
-	stateT := tupleTypeOf(t.env)
-	var call string
+	var stateT, call string
 	switch l := loop.(type) {
 	case *ast.ForStmt:
-		if l.Init != nil {
-			broken("loopfunc %s.%s: the for statement has an init clause; declare the variable before the loop or use purefunc", it.Pkg, it.Func)
+		run := func() string {
+			stateT = tupleTypeOf(t.env)
+			bare := *l
+			bare.Init = nil
+			return t.forLoop(&bare, nil)
 		}
-		call = t.forLoop(l, nil)
+		if l.Init != nil {
+			// the init clause runs inside the wrapper; its variables are part of the state handed back
+			call = t.block([]ast.Stmt{l.Init}, run)
+		} else {
+			call = run()
+		}
 	case *ast.RangeStmt:
+		stateT = tupleTypeOf(t.env)
 		call = t.rangeLoop(l, nil)
 	}
 	name := fmt.Sprintf("%s_loop%d_run", coqFuncName(it.Pkg, it.Func), it.Nth+1)
